@@ -72,7 +72,7 @@ def gen_scenario(rng, **over):
     rng.shuffle(qg)
     ncell = over.pop('ncell', rng.randint(1, 8))
     Q = [[rng.randint(0, vmax) for _ in qg] for _ in range(ncell)]
-    cells = rng.sample(range(1, 60), ncell)
+    cells = rng.sample(range(1, max(60, 2 * ncell)), ncell)
     usable = [g for g in qg if g <= G]
     root = sorted(set(rng.sample(usable, rng.randint(1, len(usable))) +
                       rng.sample(range(1, G + 1), rng.randint(0, 2))))
